@@ -1853,7 +1853,7 @@ def gen_poly(repo) -> Tuple[str, List[str]]:
                               "the columns")
         fn = PFn(w, PTL if cls == "TermList" else cls, f, rty, assumptions, ghost)
         try:
-            body = fn.translate(params, None if static else "TL")
+            body = P.with_fallback(f, lambda fd: PFn(w, PTL if cls == "TermList" else cls, fd, rty, assumptions, ghost).translate(params, None if static else "TL"))
         except Unsupported as ex:
             body = P.function_stub("PolyGen.v", f"{cls}.{name}", ex)
         ps = ([("lp_vars", "LV")] if ghost else []) + ([] if static else [("self", "TL")]) \
